@@ -429,6 +429,20 @@ def run(ctx, consume):
                     stat_meta.append((r, c))
         else:
             st["rejects"] += 1
+    # hypotheses of the model theorems on the tables used: table_struct (soundness) and
+    # table_progress (no-crash), evaluated once per built table
+    hcases, hmeta = [], []
+    for r in results:
+        if r["gerr"]:
+            continue
+        start = r["grammar"][0][1][0][1]
+        hcases.append((3, [r["grammar"], r["table"], start]))
+        hcases.append((12, [r["grammar"], r["table"], r["stop"]]))
+    houts = common.model_run(hcases)
+    st["tables"] = len(hcases) // 2
+    st["tables_table_struct_ok"] = sum(1 for o in houts[0::2] if o == 1)
+    st["tables_table_progress_ok"] = sum(1 for o in houts[1::2] if o == 1)
+    st["model_crash_results"] = sum(1 for mo in outs if mo[0] == 3)
     # the tokenisation theorem (C01_glr_model_valid_full): its boolean conditions are evaluated
     # on every case (command 212); where they hold and the model returns a forest, the verified
     # validator forest_ok must accept that forest (an instance of the theorem, re-checked)
